@@ -318,7 +318,8 @@ static struct aslot S; int L; bool hole, cO, cT, th_t, th_c, me_took, elig_k; in
   && ((th_t || th_c) ? (L == 2 && SH >= SK + 1) : 1) && (S.published ? 1 : (L == 0 && !th_t && !th_c)) \
   && (oPh >= 1 ? ST <= SK : 1) && ((oPh == 2 && !hole) ? (!cT && !th_c) : 1) && !(cO && cT) \
   && (cT ? (SH >= SK + 1 || hole || (ST <= SK && oPh == 0)) : 1) && (cO ? (ST <= SK || hole || (SH >= SK + 1 && !th_t && !th_c)) : 1) \
-  && SH >= 0 && SH < ((intptr_t)1 << 41) && ST >= -1 && ST < ((intptr_t)1 << 41))
+  && SH >= 0 && SH <= BND + 1 && ST >= -1 && ST <= BND)
+#define BND ((intptr_t)1 << 41)
 static task *const POOL_TOKEN = (task *)(uintptr_t)8;
 #define TASKPTR(i) ((task *)(((uintptr_t)(i) + 1) << 4))
 #define TIDX(p) ((size_t)(((uintptr_t)(p)) >> 4) - 1)
@@ -353,6 +354,9 @@ static void interfere(void) {
    __CPROVER_assert(oL_ == 2 ? (S.head == oh_ && L == 2 && S.published == opub_) : 1, "guarantee: the owner does not move head, take the lock or leave while a thief holds the pool lock, at " #site); \
    __CPROVER_assert(cT == ocT_ && th_t == ot_t_ && th_c == ot_c_, "guarantee: the owner does not touch the thief's ghost state, at " #site); \
    __CPROVER_assert((oPh == 2 && oP_ != 2) ? (intptr_t)oh_ <= SK || oL_ == 1 : 1, "guarantee: the owner wins slot k only by reading head <= k after lowering tail to k (or under the lock), at " #site); \
+   __CPROVER_assert((oPh >= 1 && oP_ == 0) ? (intptr_t)ot_ >= SK + 1 : 1, "guarantee: the owner starts popping slot k from tail == k+1, at " #site); \
+   __CPROVER_assert(((intptr_t)ot_ <= SK && SK < ST && (S.published || SK >= SH)) ? ((cT ? hole : 1) && (cO ? hole : 1)) : 1, "guarantee: a slot the owner puts back into [head, tail) holds a task nobody has taken, or a hole, at " #site); \
+   __CPROVER_assert((hole && !ohole_) ? (oP_ == 2 || oPh == 2) : 1, "guarantee: the owner empties only a slot it has won, at " #site); \
    r_; })
 #define ATOMIC_LOAD_AT(site, f) OWNER_STEP(site, size_t, (f))
 #define ATOMIC_STORE_AT(site, f, v) OWNER_STEP(site, size_t, ((f) = (v)))
@@ -407,6 +411,86 @@ void h_the_owner(void) {
     OBLIGATION((r == TASKPTR(g_k)) == me_took, "C01.once: get_task returns the task of slot k exactly when the owner took it under the protocol");
     OBLIGATION(!(cO && cT), "C01.once: the task in slot k is handed out at most once - never to the owner and to a thief");
     OBLIGATION(L != 1, "C01.THE: the owner does not keep the pool lock");
+    VACUITY_END();
+}
+#endif
+
+#ifdef THE_THIEF
+/* rely: what the owner (and, while this thief does not hold the lock, other thieves) may do between two steps of this thief */
+bool me_holds;
+static void interfere(void) {
+    size_t ot = S.tail; int oP = oPh; bool ohole = hole, ocO = cO, ocT = cT;
+    if (!me_holds) {                                                        /* anything that respects the invariant; the lock is not mine */
+        S.head = nondet_size_t(); S.tail = nondet_size_t(); S.published = nondet_bool(); L = nondet_int(); hole = nondet_bool(); cO = nondet_bool(); cT = nondet_bool(); th_t = nondet_bool(); th_c = nondet_bool(); oPh = nondet_int();
+        __CPROVER_assume(INV); return;
+    }
+    S.tail = nondet_size_t(); oPh = nondet_int(); cO = nondet_bool(); hole = nondet_bool(); bool newinst = nondet_bool();
+    if (newinst) cT = false;                                               /* the owner spawned a NEW task into slot k (only possible while k is at or above tail) */
+    __CPROVER_assume(INV);
+    __CPROVER_assume(newinst ? ((intptr_t)ot <= SK && SK < ST && oP == 0 && oPh == 0 && !th_c && !cO && !hole) : 1);
+    __CPROVER_assume((!newinst && ohole) ? hole : 1);
+    __CPROVER_assume((hole && !ohole) ? (oP == 2 || SH <= SK) : 1);                                   /* the owner empties only a slot it has won */
+    __CPROVER_assume((oPh == 2 && oP != 2) ? SH <= SK : 1);                                           /* the owner wins k only by seeing head <= k (it cannot take the lock while I hold it) */
+    __CPROVER_assume((oPh >= 1 && oP == 0) ? (intptr_t)ot >= SK + 1 : 1);                             /* the owner starts popping k from tail == k+1 */
+    __CPROVER_assume((cO && !ocO) ? (!ohole && (oP == 2 || SH <= SK)) : 1);
+    __CPROVER_assume((!newinst && ocO) ? cO : 1);
+    __CPROVER_assume((!newinst && (intptr_t)ot <= SK && SK < ST) ? ((cT ? hole : 1) && (cO ? hole : 1)) : 1);   /* what the owner puts back into the pool is untaken or a hole */
+    __CPROVER_assume(((intptr_t)ot < ST) ? (oPh == 0) : 1);                                          /* tail is raised only by spawn or at the end of get_task */
+}
+/* guarantee of every thief step = what the owner job relies on */
+#define THIEF_STEP(site, T, op) ({ interfere(); size_t oh_ = S.head, ot_ = S.tail; int oL_ = L, oP_ = oPh; bool ohole_ = hole, ocO_ = cO, ocT_ = cT, ot_t_ = th_t, ot_c_ = th_c, opub_ = S.published; T r_ = (op); GHOST_##site; \
+   __CPROVER_assert(INV, "guarantee: arbitration invariant for slot k re-established at " #site); \
+   __CPROVER_assert(S.tail == ot_ && cO == ocO_ && oPh == oP_ && S.published == opub_, "guarantee: a thief never moves tail, never publishes or leaves the pool, at " #site); \
+   __CPROVER_assert(me_holds || (S.head == oh_ && hole == ohole_ && cT == ocT_), "guarantee: a thief touches head and the slots only while it holds the pool lock, at " #site); \
+   __CPROVER_assert((ohole_ ? hole : 1) && (ocT_ ? cT : 1) && ((hole && !ohole_) ? cT : 1), "guarantee: a thief only empties the slot it took, at " #site); \
+   __CPROVER_assert((cT && !ocT_) ? (ST >= SK + 1 && !ohole_) : 1, "guarantee: a thief takes slot k only after bumping head over it and then seeing tail beyond it, at " #site); \
+   __CPROVER_assert((th_c && !ot_c_) ? ST >= SK + 1 : 1, "guarantee: a thief passes the check for slot k only on tail > k, at " #site); \
+   __CPROVER_assert(((intptr_t)oh_ >= SK + 1 && !ot_t_ && !ot_c_) ? (SH >= SK + 1 && !th_t && !th_c) : 1, "guarantee: a slot already below head stays below head (roll-back only to where head was found), at " #site); \
+   r_; })
+#define ATOMIC_LOAD_AT(site, f) THIEF_STEP(site, size_t, (f))
+#define ATOMIC_STORE_AT(site, f, v) THIEF_STEP(site, size_t, ((f) = (v)))
+#define ATOMIC_PREINC_AT(site, f) THIEF_STEP(site, size_t, (++(f)))
+#define NOG ((void)0)
+#define GHOST_steal_LOAD_1 NOG
+#define GHOST_steal_PREINC_1 if ((intptr_t)r_ == SK + 1) th_t = true
+#define GHOST_steal_LOAD_2 if (th_t && !(SK + 1 > (intptr_t)r_)) { th_t = false; th_c = true; }
+#define GHOST_steal_STORE_1 th_t = th_c = false
+#define GHOST_steal_STORE_2 th_t = th_c = false
+static task *pool_rd(task **vp, size_t i) {
+    __CPROVER_assert(vp == (task **)POOL_TOKEN, "C01.steal: the pool read is the one that was locked");
+    if (i != g_k) return nondet_bool() ? NULL : TASKPTR(i);
+    __CPROVER_assert(th_c && me_holds, "C01.THE: a thief reads slot k only after it has won the arbitration for k (head bumped to k+1 under the pool lock, then tail seen > k)");
+    if (!hole && elig_k) { __CPROVER_assert(!cO, "C01.once: a thief takes the task in slot k only if the owner has not taken it"); cT = true; me_took = true; }
+    return hole ? NULL : TASKPTR(i);
+}
+static void pool_wr(task **vp, size_t i, task *v) { __CPROVER_assert(v == NULL, "C01.steal: a thief only ever writes holes"); if (i == g_k) { __CPROVER_assert(me_took && me_holds, "C01.THE: a thief empties only the slot it took"); hole = true; } }
+#define POOL_RD(vp, i) pool_rd((vp), (i))
+#define POOL_WR(vp, i, v) pool_wr((vp), (i), (v))
+size_t g_Hlock;
+static task **slot_lock_task_pool(struct aslot *s) { interfere(); if (!s->published) return NULL; __CPROVER_assume(L == 0 && SH <= BND /* numeric range: with the lock free, head is at most tail+1 <= 2^41 */); L = 2; me_holds = true; g_Hlock = s->head; __CPROVER_assert(INV, "guarantee: INV after lock"); return (task **)POOL_TOKEN; }
+static void slot_unlock_task_pool(struct aslot *s, task **p) { interfere(); __CPROVER_assert(me_holds && L == 2 && p == (task **)POOL_TOKEN, "C01.THE: the thief unlocks the lock it holds"); __CPROVER_assert(!th_t, "C01.THE: no tentative head bump is left behind at unlock");
+    th_c = false; L = 0; me_holds = false; __CPROVER_assert(INV, "guarantee: INV after unlock"); }
+static bool STUB_proxy_is_shared(task *tp) { return false; }
+static bool STUB_outbox_recipient_is_idle(task *tp) { return false; }
+static bool STUB_my_mailbox_is_idle(struct arena *a, size_t idx) { return false; }
+#define LOOP_steal_1 __CPROVER_assigns(H, H0, result, tasks_omitted, S.head, S.tail, hole, cO, cT, th_t, th_c, oPh, me_took) \
+  __CPROVER_loop_invariant(INV && L == 2 && me_holds && S.published && S.head == H && (intptr_t)g_Hlock <= (intptr_t)H0 && (intptr_t)H0 <= (intptr_t)H && result == NULL && !me_took && !th_t && (intptr_t)H <= BND \
+     && (((intptr_t)H0 <= SK && SK < (intptr_t)H) ? th_c : 1) && (th_c ? SK < (intptr_t)H : 1) && (tasks_omitted ? 1 : H0 == H) \
+     && ((cT && !hole) ? ((intptr_t)H0 >= SK + 1 || (ST <= SK && oPh == 0)) : 1) && ((cO && !hole) ? (ST <= SK || (intptr_t)H0 >= SK + 1) : 1))
+#include "steal.inc"
+size_t IN_head, IN_tail, IN_k;
+void h_the_thief(void) {
+    S.task_pool_ptr = (task **)POOL_TOKEN; S.published = nondet_bool(); S.head = IN_head = nondet_size_t(); S.tail = IN_tail = nondet_size_t(); g_k = IN_k = nondet_size_t();
+    __CPROVER_assume(g_k < ((size_t)1 << 40));
+    L = nondet_int(); hole = nondet_bool(); cO = nondet_bool(); cT = nondet_bool(); th_t = nondet_bool(); th_c = nondet_bool(); oPh = nondet_int(); me_took = false; me_holds = false;
+    g_isoarg = nondet_size_t(); g_iso_k = nondet_size_t(); elig_k = (g_isoarg == no_isolation || g_isoarg == g_iso_k);
+    __CPROVER_assume(INV);
+    struct arena a; a.my_mailbox_idle = false;
+    task *r = slot_steal_task(&S, &a, g_isoarg, nondet_size_t());
+    OBLIGATION(INV, "C01.THE: the arbitration invariant holds when steal_task returns");
+    OBLIGATION((r == TASKPTR(g_k)) == me_took, "C01.once: steal_task returns the task of slot k exactly when this thief took it under the protocol");
+    OBLIGATION(!(cO && cT), "C01.once: the task in slot k is handed out at most once - never to the owner and to a thief");
+    OBLIGATION(!me_holds, "C01.THE: the thief does not keep the pool lock");
     VACUITY_END();
 }
 #endif
